@@ -248,24 +248,108 @@ BAD_NUM = [b"", b" ", b"abc", b"1__0", b"_1", b"1_", b"0x10", b"1.0", b"1e3", b"
            b"\x001", b"\x1c5", b"5\x85", b"+", b"-", b"1 2", b"\xb2"]
 
 
-def frame(rng, numtext, kind="ok"):
-    """a message around `34=<numtext>`; kind: ok | early (an earlier \\x0134= with another number wins? no: first wins)
-    | nopat | nosoh"""
-    head = b"8=FIX.4.4\x019=20\x0135=" + rng.choice([b"0", b"D", b"8", b"A"])
-    tail = b"\x0149=S\x0156=T\x0158=" + bytes(rng.choice([b"x", b"\x00\xff", b"34=9", b"=", b" "])) + b"\x0110=123\x01"
-    if kind == "nopat":
-        return head + b"\x0135=" + numtext + tail
-    if kind == "nosoh":
-        return head + b"\x0134=" + numtext
-    if kind == "bare":  # no leading SOH before 34=
-        return b"34=" + numtext + tail
-    m = head + b"\x0134=" + numtext + tail
+SESSION_TYPES = [b"0", b"1", b"2", b"4", b"5", b"A"]          # Heartbeat TestRequest ResendRequest SequenceReset Logout Logon
+APP_TYPES = [b"D", b"8", b"F", b"G", b"9", b"AE", b"j"]
+CONTENT_FLAGS = ["possdup", "possdup_n", "possresend", "origtime", "gapfill", "newseq", "second34", "large", "testreq",
+                 "resendreq", "binary"]
+
+
+def frame_content(rng):
+    """what a stored frame carries besides its number (the journal must not care): message type (session level
+    and application), PossDupFlag 43=Y/N, PossResend 97=Y, OrigSendingTime 122, GapFillFlag / NewSeqNo, a data
+    field with a second `34=` after a SOH, a large body, raw binary data.  Returns (msg type, set of flags)."""
+    mtype = rng.choice(SESSION_TYPES) if rng.random() < 0.45 else rng.choice(APP_TYPES)
+    flags = set()
+    v = rng.random()
+    if v < 0.30:
+        flags.add("possdup")
+        if rng.random() < 0.7:
+            flags.add("origtime")
+    elif v < 0.36:
+        flags.add("possdup_n")
+    if rng.random() < 0.10:
+        flags.add("possresend")
+    if mtype == b"4":
+        flags.add("newseq")
+        if rng.random() < 0.6:
+            flags.add("gapfill")
+    if mtype == b"1" or (mtype == b"0" and rng.random() < 0.4):
+        flags.add("testreq")
+    if mtype == b"2":
+        flags.add("resendreq")
     if rng.random() < 0.15:
-        # a later \x0134= with a different number must be ignored
-        m += b"\x0134=" + str(rng.randint(1, 9)).encode() + b"\x01"
+        flags.add("second34")
+    if rng.random() < 0.04:
+        flags.add("large")
+    if rng.random() < 0.06:
+        flags.add("binary")
+    return mtype, flags
+
+
+def frame(rng, numtext, kind="ok", content=None):
+    """a FIX-looking message around `34=<numtext>` with realistic, varied content (see `frame_content`);
+    kind: ok | nopat (no 34 field) | nosoh (nothing after the number) | bare (no SOH before 34=)"""
+    mtype, flags = content if content is not None else frame_content(rng)
+    head = b"8=FIX.4.4\x019=" + str(rng.randint(5, 999)).encode() + b"\x0135=" + mtype
+    comp = b"\x0149=" + rng.choice([b"S", b"SENDER", b"T"]) + b"\x0156=" + rng.choice([b"T", b"TARGET", b"S"])
+    opt = b""
+    if "possdup" in flags:
+        opt += b"\x0143=Y"
+    if "possdup_n" in flags:
+        opt += b"\x0143=N"
+    if "possresend" in flags:
+        opt += b"\x0197=Y"
+    opt += b"\x0152=20260922-01:02:03.456"
+    if "origtime" in flags:
+        opt += b"\x01122=20260922-01:02:00.000"
+    body = b""
+    if "gapfill" in flags:
+        body += b"\x01123=Y"
+    if "newseq" in flags:
+        body += b"\x0136=" + str(rng.randint(1, 99)).encode()
+    if "testreq" in flags:
+        body += b"\x01112=TEST" + str(rng.randint(0, 9)).encode()
+    if "resendreq" in flags:
+        body += b"\x017=" + str(rng.randint(1, 9)).encode() + b"\x0116=" + rng.choice([b"0", b"12"])
+    if mtype in APP_TYPES:
+        body += b"\x0111=clord" + str(rng.randint(1, 99)).encode() + b"\x0155=SYM\x0154=1\x0138=10"
+    body += b"\x0158=" + bytes(rng.choice([b"x", b"\x00\xff", b"34=9", b"=", b" ", b"43=Y", b"text 43=Y 34=7"]))
+    if "second34" in flags:
+        # a data field whose value contains SOH 34= : must be ignored (the first occurrence is the header's)
+        body += b"\x0195=6\x0196=a\x0134=" + str(rng.randint(1, 9)).encode() + b"\x01b"
+    if "binary" in flags:
+        body += b"\x0195=8\x0196=" + bytes(rng.randrange(256) for _ in range(8))
+    if "large" in flags:
+        body += b"\x01354=" + str(4000).encode() + b"\x01355=" + bytes(rng.choice(b"abc \xe9") for _ in range(rng.randint(2000, 6000)))
+    tail = b"\x0110=" + str(rng.randint(0, 255)).zfill(3).encode() + b"\x01"
+    if kind == "nopat":
+        return head + comp + b"\x0135=" + numtext + opt + body + tail
+    if kind == "nosoh":
+        return head + comp + b"\x0134=" + numtext
+    if kind == "bare":  # no leading SOH before 34=
+        return b"34=" + numtext + opt + body + tail
+    # header order varies: 34 before or after the CompIDs
+    if rng.random() < 0.5:
+        m = head + b"\x0134=" + numtext + comp + opt + body + tail
+    else:
+        m = head + comp + b"\x0134=" + numtext + opt + body + tail
     if rng.random() < 0.05:
         m += bytes(rng.randrange(256) for _ in range(rng.randint(1, 6)))
     return m
+
+
+def content_class(msg, d):
+    """coarse content class of a stored frame, for the measured distribution"""
+    i = msg.find(b"\x0135=")
+    t = msg[i + 4:msg.find(b"\x01", i + 1)] if i >= 0 else b"?"
+    k = "session" if t in SESSION_TYPES else "app"
+    if b"\x0143=Y\x01" in msg:
+        k += "+possdup"
+    if b"\x0197=Y\x01" in msg:
+        k += "+possresend"
+    if len(msg) > 1500:
+        k += "+large"
+    return ("out:" if d == 1 else "in:") + k
 
 
 def pick_num(rng, st):
@@ -441,6 +525,7 @@ def correspondence(ctx):
 
     dis, branches, nontriv, evals, skipped = [], {}, 0, 0, 0
     distinct = set()
+    content = {}
     opcount = {}
     all_lines, spans, impl_all = [], [], []
     kept_kinds = []
@@ -458,6 +543,10 @@ def correspondence(ctx):
         for l, r, m in zip(lines, impl, model):
             if m.startswith("unmodelled"):
                 skipped += 1
+            if l.startswith("jrn.persist "):
+                t = l.split(" ")
+                cl = content_class(C.unhx(t[5]), 1 if t[4] == "out" else 0) + (":stored" if r.startswith("none") else ":refused")
+                content[cl] = content.get(cl, 0) + 1
             key = l.split(" ")[0][4:] + ":" + (r.split(" ")[0] if not r.startswith("e ") and not r.startswith("s ") else
                                                (r.split(" ")[1] if r.startswith("e ") else "set-" + r.split(" ")[2]))
             branches[key] = branches.get(key, 0) + 1
@@ -495,6 +584,7 @@ def correspondence(ctx):
         "exhaustive": False,
         "branches": dict(sorted(branches.items())),
         "distribution": {"sequences": len(cases), "corpus": ncorp, "ops": opcount, "unmodelled_skipped": skipped,
+                         "stored_frame_content": dict(sorted(content.items())),
                          "max_len": maxlen},
         "disagreements": dis,
     }
